@@ -446,6 +446,16 @@ def class_pairs():
                                ("echo of a function result", "echo(v());", "echo(w());"), ("echo of a method result", "echo(a.m());", "echo(a.n());"),
                                ("echo of a concatenation", "echo(\"g=\" + v());", "echo(\"g=\" + w());")]:
         P.append(("result of a void call used as an operand", pos, vd % bad_s, vd % good_s))
+    sh = ("class A { public constructor() -> A { } private function hid() -> int { return 7; } protected function pro() -> int { return 8; } public function inst() -> int { return 1; } }\n"
+          "class B extends A { public constructor() -> B { super(); } %s }\nfunction main() -> void { B b = new B(); }")
+    P.append(("private method used in a subclass", "bare call with a local of the same name", sh % "public function g() -> int { int hid = 1; return hid(); }",
+              sh % "public function g() -> int { int pro = 1; return pro(); }"))
+    P.append(("this/super in a static context", "bare instance call from a static method, with a local of the same name",
+              sh % "public static function s() -> int { int inst = 1; return inst(); }", sh % "public function s() -> int { int inst = 1; return inst(); }"))
+    ix = "class A { public constructor() -> A { } }\nfunction v() -> void { }\nfunction main() -> void { int[] a = {1, 2}; %s }"
+    for pos, bad_s, good_s in [("null index", "echo(a[null]);", "echo(a[0]);"), ("void call index", "echo(a[v()]);", "echo(a[1]);"),
+                               ("string index", "int z = 1 + a[\"k\"];", "int z = 1 + a[1L];"), ("object index", "echo(a[new A()]);", "echo(a[1b]);")]:
+        P.append(("array index of a non-numeric type", pos, ix % bad_s, ix % good_s))
     fa = "class A { public final int[] a = {1, 2}; public int[] b = {3}; public constructor() -> A { } public function m() -> void { %s } }\nfunction main() -> void { A o = new A(); o.m(); }"
     P.append(("final field modified after initialisation", "element of a final array field", fa % "a[0] = 9;", fa % "b[0] = 9;"))
     P.append(("final field modified after initialisation", "element of a final array field, nested", fa % "echo(a[1] = 9);", fa % "echo(b[0] = 9);"))
